@@ -50,6 +50,71 @@ def work(item):
     return {"n": n, "si": si, "variant": variant, "dist": dist, "nexec": nexec, "mass": tot, "log_pdf": log_pdf, "ref": ref, "err": err}
 
 
+def exact_count(state):
+    """Number of compatible orders by exact integer arithmetic (for trees too large for the brute-force filter)."""
+    ch = oracle.children_map(state)
+
+    def rec(b):
+        size, ways = len(b), math.factorial(len(b))
+        tot = 0
+        for c in ch.get(b, []):
+            s_c, w_c = rec(c)
+            ways *= w_c
+            tot += s_c
+            ways *= math.comb(tot, s_c)
+        return size + tot, ways
+
+    tot, ways = 0, 1
+    for r in ch.get(None, []):
+        s_r, w_r = rec(r)
+        ways *= w_r
+        tot += s_r
+        ways *= math.comb(tot, s_r)
+    k = len(state[1])
+    return ways * math.comb(tot + k, k) * math.factorial(k)
+
+
+def large_work(item):
+    par, n_out, policy = item
+    from phyclone.smc.utils import RootPermutationDistribution
+    from mc.checks.c02 import forest_state
+    from mc.enumrng import EnumRNG
+
+    K = len(par)
+    state, n_in = forest_state(par, [1 + (i % 3 == 0) for i in range(K)])
+    state = (state[0], frozenset(range(n_in, n_in + n_out)))
+    data = oracle.make_data(n_in + n_out, grid=2, outlier_prob=0.2)
+    res = {"item": item, "problems": []}
+    try:
+        t = oracle.build(state, data)
+        cnt = exact_count(state)
+        lp = float(RootPermutationDistribution.log_pdf(t))
+        want = -sum(math.log(x) for x in [cnt]) if cnt < 1e300 else -(math.lgamma(1) + float(cnt.bit_length()) * math.log(2))
+        want = -math.log(cnt) if cnt < 10 ** 300 else None
+        if want is not None and not abs(lp - want) <= 1e-9 * (1 + abs(want)):
+            res["problems"].append("large tree %r with %d outliers: log_pdf %.12g, minus log of the exact count is %.12g" % (list(par), n_out, lp, want))
+        rng = EnumRNG(policy=policy)
+        order = [dp.idx for dp in RootPermutationDistribution.sample(oracle.build(state, data), rng)]
+        pos = {v: k for k, v in enumerate(order)}
+        ch = oracle.children_map(state)
+        if sorted(order) != list(range(n_in + n_out)):
+            res["problems"].append("drawn order is not a permutation of the data")
+        else:
+            def desc(b):
+                out = set()
+                for c in ch.get(b, []):
+                    out |= set(c) | desc(c)
+                return out
+            for b, _ in state[0]:
+                dsc = desc(b)
+                if dsc and max(pos[j] for j in dsc) > min(pos[i] for i in b):
+                    res["problems"].append("drawn order places clone %r before one of its descendants" % sorted(b))
+                    break
+    except Exception as e:
+        res["problems"].append("raised %s: %s" % (type(e).__name__, str(e)[:150]))
+    return res
+
+
 def main(tier, seed):
     chk = Check("C09", tier, seed)
     chk.rule = ("every abstract tree over n <= 4 data points incl. every outlier subset (n = 5 without outliers in thorough), built in "
@@ -102,12 +167,33 @@ def main(tier, seed):
         if cnt >= 6 and len(chk.samples) < 4:
             chk.sample({"tree": oracle.fmt_state(s), "compatible_orders": cnt, "executions": r["nexec"], "one_order": list(r["ref"][0]), "log_pdf": r["log_pdf"]})
     chk.note("distinct_outcomes", len(outcomes))
+    # the exact integer count is first validated against the brute-force filter on every small tree
+    for n in (2, 3, 4):
+        for s_ in oracle.all_states(n, outliers=True):
+            if exact_count(s_) != len(oracle.linear_extensions(s_)):
+                chk.violation({"sub": "oracle"}, {"problem": "harness: exact count disagrees with the brute force", "tree": oracle.fmt_state(s_)}, {"oracle": True})
+                break
+    from mc.checks.c02 import large_forests
+
+    shapes = large_forests() + [tuple([-1] + list(range(29))), tuple([-1] + [0] * 24)]  # chain of 30 clones, star of 25
+    litems = [(par, n_out, pol) for par in shapes for n_out in (0, 3) for pol in ("first", "last")]
+    for r in pool_imap(large_work, litems, chunksize=2):
+        chk.transitions += 1
+        chk.traces_validated += 1
+        chk.states.add(("large", r["item"][0], r["item"][1]))
+        chk.nontrivial.add(("large", r["item"][0], r["item"][1]))
+        for pr in r["problems"][:2]:
+            chk.violation({"sub": "large", "what": pr.split(":")[0][:40]}, {"problem": pr}, {"large": [list(r["item"][0]), r["item"][1], r["item"][2]]})
     return chk.finish()
 
 
 def replay(path):
     body = json.load(open(path))
     rp = body["replay"]
+    if "large" in rp:
+        r = large_work((tuple(rp["large"][0]), rp["large"][1], rp["large"][2]))
+        print(r["problems"])
+        return 1 if r["problems"] else 0
     r = work((rp["n"], rp["state_index"], rp["variant"]))
     cnt = len(r["ref"])
     print("tree", oracle.fmt_state(oracle.all_states(rp["n"], outliers=(rp["n"] <= 4))[rp["state_index"]]))
